@@ -66,9 +66,16 @@ add(H("REPLAY", "m_replay_wiring", "verif_k::c10::m_replay_wiring", "", kani=Fal
 add(H("REPLAY", "m_replay_number_literal", "verif_k::c10::m_replay_number_literal", "", kani=False))
 add(H("REPLAY", "m_replay_literal_text", "verif_k::c10::m_replay_literal_text", "", kani=False))
 add(H("REPLAY", "m_replay_radix_literal", "verif_k::c10::m_replay_radix_literal", "", kani=False))
+add(H("REPLAY", "m_replay_at_date", "verif_k::c10::m_replay_at_date", "", kani=False))
+add(H("REPLAY", "m_replay_nested", "verif_k::c02::m_replay_nested", "", kani=False))
+add(H("REPLAY", "m_replay_number_print_margin", "verif_k::c10::m_replay_number_print_margin", "", kani=False))
+add(H("REPLAY", "m_replay_variable_operand", "verif_k::c10::m_replay_variable_operand", "", kani=False))
 add(H("REPLAY", "d_dump_units", "verif_k::c12::d_dump_units", "", kani=False))
 add(H("REPLAY", "k_replay_set_text_lines", "verif_k::c04::k_replay_set_text_lines", "", kani=False))
 add(H("REPLAY", "k_replay_update_currency", "verif_k::c04::k_replay_update_currency", "", kani=False))
+add(H("REPLAY", "k_replay_api_rule2", "verif_k::c04::k_replay_api_rule2", "", kani=False))
+add(H("REPLAY", "k_replay_unit_history", "verif_k::c04::k_replay_unit_history", "", kani=False))
+add(H("REPLAY", "k_replay_unit_recognition", "verif_k::c04::k_replay_unit_recognition", "", kani=False))
 add(H("REPLAY", "k_replay_registration", "verif_k::c04::k_replay_registration", "", kani=False))
 add(H("REPLAY", "k_replay_api_rule", "verif_k::c04::k_replay_api_rule", "", kani=False))
 add(H("REPLAY", "k_replay_session_reuse", "verif_k::c04::k_replay_session_reuse", "", kani=False))
